@@ -48,4 +48,5 @@ def main (args : List String) : IO UInt32 := do
   | ["format"] => loop stdin stdout Driver.Format.handle; return 0
   | ["compositeq"] => loop stdin stdout Driver.CompositeQ.handle; return 0
   | ["opacity"] => loop stdin stdout Driver.Opacity.handle; return 0
+  | ["samplefast"] => loop stdin stdout Driver.Sample.handleFast; return 0
   | _ => IO.eprintln "usage: pixdrv <domain>"; return 2
